@@ -129,6 +129,9 @@ def save_setup(interp, path):
     path.assume(z3.And(H >= 1, W >= 1))
     me = mk_image(interp, "image", "F32", H, W)
     me.fields["_default_format"] = "fits"
+    # an image loaded from a FITS tile remembers the range of its header; saving must not depend on it
+    me.fields["_data_min"] = OptionalVal(z3.Bool(fresh_name("has_min")), z3.Real(fresh_name("old_min")))
+    me.fields["_data_max"] = OptionalVal(z3.Bool(fresh_name("has_max")), z3.Real(fresh_name("old_max")))
     return {"self": me, "path_or_stream": StrSeq([Tok("path", "path")]), "format": "fits", "mode": None,
             "min_value": z3.Real(fresh_name("min_value")) if case["minv"] else None,
             "max_value": z3.Real(fresh_name("max_value")) if case["maxv"] else None}
